@@ -171,7 +171,18 @@ def check(cx):
         r3.instance('attributed to the source captured before the rename')
         n = e.node
         a2 = (ir.base_var(n['args'][2]) if n.get('k') == 'Call' and len(n['args']) > 2 else None) or {}
-        binds = [b for b in w.events if b.kind == 'bind' and a2.get('k') == 'Var' and b.data['var'] == a2.get('v')]
+        def _binds_of(v_):
+            # variable ids are local to a body: match the name as well
+            return [b for b in w.events if b.kind == 'bind' and v_.get('k') == 'Var' and b.data['var'] == v_.get('v')
+                    and b.data.get('name') == v_.get('n')]
+        binds = _binds_of(a2)
+        # through helper parameters back to the `let` that captured the value
+        for _hop in range(4):
+            if len(binds) == 1 and binds[0].data.get('arg_node') is not None:
+                a2 = ir.base_var(binds[0].data['arg_node']) or {}
+                binds = _binds_of(a2)
+            else:
+                break
         okb = (s['source'] == CONN_SOURCE and len(binds) == 1 and setn and binds[0].seq < setn[0].seq)
         if not okb:
             r3.violation('process_nick|announcement-source', 'the NICK announcement is not attributed to the old nick!user@host (captured '
